@@ -99,6 +99,9 @@ pub enum CookieStyle {
     /// distinct cookies; the response control is marked critical and carries a result-set
     /// size estimate (70000 on the first page, 128 on later ones) instead of 0
     WithEstimate,
+    /// distinct cookies; size estimates that do not fit 31 bits: 2^31 on the first page, then
+    /// 2^40, then ff ff ff ff (-1)
+    HugeEstimate,
 }
 
 #[derive(Clone, Debug, Serialize, Deserialize, PartialEq, Eq)]
@@ -193,6 +196,9 @@ pub enum FaultKind {
     Garbage,
     /// a complete element that is no LDAPMessage (30 00), the peer then stays connected and silent
     ShortGarbage,
+    /// a response for the first pending request whose LDAPResult has three well-formed optional
+    /// elements and then a malformed one (a responseName that is not UTF-8); the peer stays connected
+    BadResultTail,
     WriteErr,
     /// accept n more bytes, then fail
     WritePartial(usize),
